@@ -592,6 +592,13 @@ def job_stream(pid, ctx, n_random=None):
                 if it.get(u) not in want:
                     fmt = lambda x: "never" if x is None else f"at {x[0]} ms after {x[1]} process-visible effects (hook calls, spawns, signals, kills, reaps, run markers, error-handler calls) of the run"
                     s.oracle_failures.append((i, c, ta, f"[C09] ticket {u} resolves {fmt(it.get(u))}; the documented semantics resolve it {' or '.join(sorted(fmt(w) for w in want))}"))
+                # C07 "its ticket resolves no later than the completion of that control (graceful stop: the earlier of the process exiting and the
+                # grace period expiring)": in the model a control's flag is raised when the control completes (c07_noLost, c07_ticket_by_deadline),
+                # so a ticket that EVERY admissible run resolves and the real task resolves later — or never — is late
+                if ats and all(a.get(u) is not None for a in ats):
+                    latest = max(a[u][0] for a in ats)
+                    if it.get(u) is None: s.oracle_failures.append((i, c, ta, f"[C07] ticket {u} never resolves; its control completes (and every admissible run resolves the ticket) at {latest} ms at the latest"))
+                    elif it[u][0] > latest: s.oracle_failures.append((i, c, ta, f"[C07] ticket {u} resolves at {it[u][0]} ms, later than the completion of its control ({latest} ms at the latest)"))
         def kills(t): return {e.split(":")[2]: int(e.split(":")[0]) for e in t.split("|") if ":kill:" in e}
         ik = kills(ta)
         if ik and job_norm(ta) not in alts:
@@ -1026,7 +1033,9 @@ def worker_cases(seed, n):
             t += r.choice([0, 1, 1, 2, 3, 5]) * grid if j else 0
             if arr and t == arr[-1][0]: t += grid
             prio = r.choice("nnnnhlu"); kind = r.choice("ttttte"); v = r.choice("ppprre")
-            arr.append((t, f"{i}x{j}", prio, kind, v))
+            # events of IDENTICAL content (same tags, same metadata: two signals of one kind, two writes to one file): the previous event again
+            if arr and r.random() < 0.2: arr.append((t,) + arr[-1][1:])
+            else: arr.append((t, f"{i}x{j}", prio, kind, v))
         changes = []
         if changing:
             for _ in range(r.randint(1, 2)):
@@ -1043,6 +1052,13 @@ def worker_cases(seed, n):
             if arr and t == arr[-1][0]: t += 10
             arr.append((t, f"b{i}x{j}", r.choice("nnnnhl"), "t", r.choice("eeeeppr")))
         cases.append((f"eb{i}", r.choice([100, 150]), f"0e{r.choice([1, 1, 2])}x{r.choice([60, 90])}", arr, []))
+    # "a small or large event queue", "bursts inside a window": 3-6 times more events than the event queue holds (queue of 4 / 8 / 16, Config::
+    # event_channel_size set to match), sent back to back inside one window; oracle only (conservation, one window's lower bound)
+    for i in range(max(4, n // 24)):
+        q = r.choice([4, 8, 16]); k = q * r.randint(3, 6); thr = r.choice([150, 250])
+        arr = [(j // 8, f"q{i}x{j}" if r.random() < 0.85 or not j else f"q{i}x{j - 1}", "n", "t", "p") for j in range(k)]
+        arr = [a if a[1] == f"q{i}x{j}" else (a[0],) + arr[j - 1][1:] for j, a in enumerate(arr)]
+        cases.append((f"qb{i}", thr, f"0q{q}", arr, []))
     # a flood of filter-REJECTED events that starts inside the window and goes on long after it: the pending batch must still be
     # delivered within a bounded delay after the window ends (`off:F:ms` items; the model's run is unaffected by rejected events)
     for i in range(max(6, n // 16)):
@@ -1104,7 +1120,9 @@ def worker_stream(pid, ctx):
     worst_late = 0
     def parse(line):
         m = re.match(r"\S+ sent=(\S*) batches=(\S*) errs=(\d+) filtered=(\S*)", line)
-        sent = {x.split("@")[0]: int(x.split("@")[1]) for x in m.group(1).split(",") if x}
+        sent = {}
+        for x in m.group(1).split(","):
+            if x and x.split("@")[0] not in sent: sent[x.split("@")[0]] = int(x.split("@")[1])      # events of identical content: the earliest send
         got = [(int(b.split("@")[1]), b.split("@")[0].split("+")) for b in m.group(2).split(",") if b]
         return sent, got, int(m.group(3)), [x for x in m.group(4).split("+") if x]
     suspects = []
